@@ -53,3 +53,20 @@ package mysql
 //@   requires inv [inv]: clusterInv(c)
 //@   ensures C10.get [C10,C17,C04,C01,C08,C11,C16,C18,C19]: result != nil ==> result.host == host
 //@   ensures C10.get_registered [C10]: result != nil <==> (has(c.haNodes, host) || has(c.cascadeNodes, host))
+
+// ---- composite statements (verified against the assumed single-statement contracts) ---------------------
+
+//@ define othersUntouched(h string) = forall x string :: x != h ==> touched[x] == old(touched)[x] && g_ro[x] == old(g_ro)[x] && g_sro[x] == old(g_sro)[x] && g_offline[x] == old(g_offline)[x] && g_ssMaster[x] == old(g_ssMaster)[x] && g_ssSlave[x] == old(g_ssSlave)[x] && g_wait[x] == old(g_wait)[x] && g_source[x] == old(g_source)[x] && g_ioStopped[x] == old(g_ioStopped)[x] && g_sqlStopped[x] == old(g_sqlStopped)[x]
+
+//@ func (*mysql.Node).SetOfflineForce
+//@   requires nonnil [safety]: n != nil
+//@   ensures C01.offline_force [C01,C08]: result == nil ==> g_offline[n.host] && !g_ssMaster[n.host] && !g_ssSlave[n.host]
+//@   ensures C01.offline_force_frame [C01,C08]: othersUntouched(n.host) && g_ro == old(g_ro) && g_sro == old(g_sro) && e_SetWritable == old(e_SetWritable) && e_ChangeMaster == old(e_ChangeMaster) && e_ResetSlaveAll == old(e_ResetSlaveAll) && e_SetReadOnly == old(e_SetReadOnly)
+
+//@ func (*mysql.Node).RestartReplica
+//@   requires nonnil [safety]: n != nil
+//@   ensures C04.restart_frame [C04,C01]: othersUntouched(n.host) && g_ro == old(g_ro) && g_sro == old(g_sro) && g_ssMaster == old(g_ssMaster) && g_ssSlave == old(g_ssSlave) && g_wait == old(g_wait) && g_source == old(g_source) && e_SetWritable == old(e_SetWritable) && e_ChangeMaster == old(e_ChangeMaster) && e_ResetSlaveAll == old(e_ResetSlaveAll)
+
+//@ func (*mysql.Node).RestartSlaveIOThread
+//@   requires nonnil [safety]: n != nil
+//@   ensures C04.restart_io_frame [C04,C01]: othersUntouched(n.host) && g_ro == old(g_ro) && g_sro == old(g_sro) && g_ssMaster == old(g_ssMaster) && g_ssSlave == old(g_ssSlave) && g_wait == old(g_wait) && g_source == old(g_source) && e_SetWritable == old(e_SetWritable) && e_ChangeMaster == old(e_ChangeMaster) && e_ResetSlaveAll == old(e_ResetSlaveAll)
